@@ -6,6 +6,7 @@
                                          copy it to /verif/seeded/<id>/
   eval_mutants.py run [<id> ...]         apply each kept change to /repo, run `check.py matrix`,
                                          undo it, and record which checks report
+  eval_mutants.py run-isolated [<id>..]  the same against a scratch worktree of /repo (snapshot harness pointed at it)
 """
 import glob
 import json
@@ -100,31 +101,46 @@ def confirm(outdir):
 SNAP = "/tmp/vsnap"
 
 
-def run(ids):
+def run(ids, isolated=False):
     # the checks run from a snapshot of /verif's HEAD, so that editing /verif meanwhile cannot disturb them
+    global SNAP
+    repo = "/repo"
+    if isolated:
+        # ... and against a scratch worktree of /repo (the snapshot's harness is pointed at it), so that
+        # /repo itself stays untouched and development checks can go on meanwhile
+        SNAP, repo = "/tmp/vsnap-iso", "/tmp/vrepo-iso"
+        sh("git -C /repo worktree remove --force %s; git -C /repo worktree prune" % repo)
+        rc, out = sh(["git", "-C", "/repo", "worktree", "add", "-q", "--detach", repo, "HEAD"])
+        if rc != 0:
+            print("cannot make a scratch repo:", out)
+            return
     sh("git -C %s worktree remove --force %s; git -C %s worktree prune" % (ROOT, SNAP, ROOT))
     rc, out = sh(["git", "-C", ROOT, "worktree", "add", "-q", "--detach", SNAP, "HEAD"])
     if rc != 0:
         print("cannot make a snapshot:", out)
         return
+    if isolated:
+        ct = os.path.join(SNAP, "harness", "Cargo.toml")
+        open(ct, "w").write(open(ct).read().replace('path = "/repo"', 'path = "%s"' % repo))
+        os.environ["VERIF_DEV_REPO"] = repo
     for d in sorted(glob.glob(os.path.join(SEEDED, "*"))):
         mid = os.path.basename(d)
         if ids and mid not in ids:
             continue
         if not os.path.exists(os.path.join(d, "patch.diff")):
             continue
-        rc, out = sh(["git", "-C", "/repo", "status", "--porcelain"])
+        rc, out = sh(["git", "-C", repo, "status", "--porcelain"])
         if out.strip():
-            print("refusing: /repo is not clean")
+            print("refusing: %s is not clean" % repo)
             return
-        rc, out = sh(["git", "-C", "/repo", "apply", os.path.join(d, "patch.diff")])
+        rc, out = sh(["git", "-C", repo, "apply", os.path.join(d, "patch.diff")])
         try:
             if rc != 0:
                 print(mid, "patch does not apply", out[-200:])
                 continue
             rc, out = sh(["python3", os.path.join(SNAP, "check.py"), "matrix", "--tier", "quick"], cwd=SNAP, timeout=3600)
         finally:
-            sh("git -C /repo checkout -q -- . && git -C /repo clean -fdq -e target")
+            sh("git -C %s checkout -q -- . && git -C %s clean -fdq -e target" % (repo, repo))
         m = [l for l in out.splitlines() if l.startswith("MATRIX ")]
         meta = json.load(open(os.path.join(d, "meta.json")))
         if m:
@@ -147,3 +163,6 @@ if __name__ == "__main__":
             confirm(o)
     elif sys.argv[1] == "run":
         run(sys.argv[2:])
+    elif sys.argv[1] == "run-isolated":
+        run(sys.argv[2:], isolated=True)
+        sh("git -C %s worktree remove --force /tmp/vsnap-iso; git -C /repo worktree remove --force /tmp/vrepo-iso" % ROOT)
